@@ -427,8 +427,8 @@ def _c20(prop, spec, tier, seed, args):
 
 SPECS["C20"] = dict(
     level="other", custom=_c20, engine_name="mir-smt", harnesses=[],
-    level_text="Error path only: an SMT entailment query over the data-flow implications of the current tree's MIR shows that the Result of parsing parameters.json never reaches an unwrap/expect/unwrap_or* call in reload_json (so a torn file yields Err: no abort, no substituted parameters); a reached sink is confirmed natively on every prefix of a dumped file before it is reported. Dump side: a second entailment query shows that a truncating open (OpenOptions::truncate(true) / File::create / set_len / rename) reaches the writer handed to to_writer in dump_json (a dump over an older, longer file must reload); a missing one is confirmed natively before it is reported.",
-    level_note="Trusted: rustc MIR dump, lib/smt_taint.py (flow-insensitive may-analysis over assignments, calls, &mut arguments), z3/cvc5, serde_json's contract that a strict prefix of a JSON object is an error. The value round-trip clause of C20 is NOT decided.",
+    level_text="Error path, truncating open and dumped-value identity: an SMT entailment query over the data-flow implications of the current tree's MIR shows that the Result of parsing parameters.json never reaches an unwrap/expect/unwrap_or* call in reload_json (so a torn file yields Err: no abort, no substituted parameters); a reached sink is confirmed natively on every prefix of a dumped file before it is reported. Dump side: a second entailment query shows that a truncating open (OpenOptions::truncate(true) / File::create / set_len / rename) reaches the writer handed to to_writer in dump_json (a dump over an older, longer file must reload); a missing one is confirmed natively before it is reported. Value side: a third family of entailment queries shows that no computed value (arithmetic, numeric cast, call result) reaches the value argument of any serde serialize_* call in the crate's Serialize code - the stored field itself is dumped; a computed value is confirmed natively (dump, reload, compare with the tolerance the property states) before it is reported.",
+    level_note="Trusted: rustc MIR dump, lib/smt_taint.py (flow-insensitive may-analysis over assignments, calls, &mut arguments), z3/cvc5, serde_json's contract that a strict prefix of a JSON object is an error. Of the value round-trip clause only 'the stored fields themselves are handed to the serializer' is decided; exactness of serde_json's / ryu's text conversion is NOT decided (trusted; observed natively within one unit in the last place for four parameter tuples).",
     technique="MIR data-flow implications, entailment decided by z3 and cvc5; native prefix enumeration only as replay",
 )
 
